@@ -3,7 +3,9 @@
 #define VERIF_RNG_H
 #include <stdint.h>
 static uint64_t rng_state;
-static inline void rng_seed(uint64_t s){ rng_state = s*0x9E3779B97F4A7C15ULL + 0x1234567; }
+static inline uint64_t rng_u64(void);
+/* the seed is hashed twice so that seeds s and s+1 start at unrelated positions of the sequence */
+static inline void rng_seed(uint64_t s){ rng_state = s*0x9E3779B97F4A7C15ULL + 0x1234567; rng_state = rng_u64() ^ (s<<32); rng_state = rng_u64(); }
 static inline uint64_t rng_u64(void){ uint64_t z=(rng_state+=0x9E3779B97F4A7C15ULL); z=(z^(z>>30))*0xBF58476D1CE4E5B9ULL; z=(z^(z>>27))*0x94D049BB133111EBULL; return z^(z>>31); }
 static inline uint32_t rng_u32(void){ return (uint32_t)(rng_u64()>>32); }
 static inline int rng_n(int n){ return n<=0?0:(int)(rng_u64()%(uint64_t)n); }   /* [0,n) */
